@@ -1323,6 +1323,9 @@ func (t *TypeSystem) isUsersetRewriteValid(objectType, relation string, rewrite 
 		}
 		return &RelationUndefinedError{ObjectType: "", Relation: computedUserset, Err: ErrRelationUndefined}
 	case *openfgav1.Userset_Union:
+		if len(r.Union.GetChild()) == 0 {
+			return &InvalidRelationError{ObjectType: objectType, Relation: relation, Cause: ErrInvalidUsersetRewrite}
+		}
 		for _, child := range r.Union.GetChild() {
 			err := t.isUsersetRewriteValid(objectType, relation, child)
 			if err != nil {
@@ -1330,6 +1333,9 @@ func (t *TypeSystem) isUsersetRewriteValid(objectType, relation string, rewrite 
 			}
 		}
 	case *openfgav1.Userset_Intersection:
+		if len(r.Intersection.GetChild()) == 0 {
+			return &InvalidRelationError{ObjectType: objectType, Relation: relation, Cause: ErrInvalidUsersetRewrite}
+		}
 		for _, child := range r.Intersection.GetChild() {
 			err := t.isUsersetRewriteValid(objectType, relation, child)
 			if err != nil {
